@@ -112,7 +112,7 @@ def integrate(stamps, vals, S, E, rainfall, maxgap):
     return "valid", float(total / (E - S))
 
 
-def build_series(stamps, vals, unit, tz):
+def build_series(stamps, vals, unit, tz, vdtype="f8"):
     import pandas as pd
     idx = pd.DatetimeIndex(np.asarray(stamps, dtype="int64").astype("datetime64[s]"))
     idx = idx.as_unit(unit)
@@ -121,7 +121,12 @@ def build_series(stamps, vals, unit, tz):
     elif tz == "+10":
         import datetime as dtm
         idx = idx.tz_localize(dtm.timezone(dtm.timedelta(hours=10)))
-    return pd.Series(np.asarray(vals, dtype=float), index=idx)
+    v = np.asarray(vals, dtype=float)
+    if vdtype == "f4" and np.all((v == v.astype(np.float32)) | np.isnan(v)):
+        v = v.astype(np.float32)
+    elif vdtype == "i8" and np.all(np.isfinite(v)) and np.all(v == np.round(v)):
+        v = v.astype(np.int64)
+    return pd.Series(v, index=idx, name="flow")
 
 
 def call(se, P, maxgap, rainfall):
@@ -153,7 +158,8 @@ def run_case(ctx, case):
         ctx.tag("unit:" + unit)
         if tz != "naive":
             ctx.tag("tz:" + tz)
-        se = build_series(stamps, vals, unit, tz)
+        se = build_series(stamps, vals, unit, tz,
+                          ["f8", "f4", "i8"][(len(stamps) + len(unit)) % 3])
         ctx.api("var2h")
         try:
             out = call(se, P, maxgap, rainfall)
